@@ -1,7 +1,7 @@
 (* Refine/PySem.v — the small semantic kit the translator tools/py2coq.py targets: outcomes of a block of Python statements,
    sequencing, loops as folds, enumerate, f-string tokens, insertion-ordered dictionaries. *)
 From Coq Require Export String.
-From Coq Require Export ZArith List Bool.
+From Coq Require Export ZArith List Bool Ascii.
 Export ListNotations.
 Open Scope Z_scope.
 
@@ -15,33 +15,34 @@ Inductive outcome (S R : Type) :=
 | RetNone             (* return None / a tuple of None *)
 | Raised (e : exn)
 | NonInt              (* a value left the integers (negative exponent): nothing further is claimed *)
-| Brk (s : S).        (* break *)
+| Brk (s : S)         (* break *)
+| OutOfFuel.          (* a while loop ran longer than the fuel it was given: nothing is claimed *)
 Arguments Next {S R} s. Arguments Cont {S R} s. Arguments Ret {S R} r.
-Arguments RetNone {S R}. Arguments Raised {S R} e. Arguments NonInt {S R}. Arguments Brk {S R} s.
+Arguments RetNone {S R}. Arguments Raised {S R} e. Arguments NonInt {S R}. Arguments Brk {S R} s. Arguments OutOfFuel {S R}.
 
 (* result of a call *)
-Inductive fres (R : Type) := FRet (r : R) | FNone | FRaised (e : exn) | FNonInt.
-Arguments FRet {R} r. Arguments FNone {R}. Arguments FRaised {R} e. Arguments FNonInt {R}.
+Inductive fres (R : Type) := FRet (r : R) | FNone | FRaised (e : exn) | FNonInt | FOutOfFuel.
+Arguments FRet {R} r. Arguments FNone {R}. Arguments FRaised {R} e. Arguments FNonInt {R}. Arguments FOutOfFuel {R}.
 
 Definition seqo {S R} (o : outcome S R) (k : S -> outcome S R) : outcome S R :=
   match o with Next s => k s | other => other end.
 Definition uncont {S R} (o : outcome S R) : outcome S R :=
   match o with Cont s => Next s | other => other end.
 Definition finish {S R} (o : outcome S R) : fres R :=
-  match o with Next _ | Cont _ | Brk _ | RetNone => FNone | Ret r => FRet r | Raised e => FRaised e | NonInt => FNonInt end.
+  match o with Next _ | Cont _ | Brk _ | RetNone => FNone | Ret r => FRet r | Raised e => FRaised e | NonInt => FNonInt | OutOfFuel => FOutOfFuel end.
 (* after a loop: break ends the loop, not the block *)
 Definition unloop {S R} (o : outcome S R) : outcome S R :=
   match o with Brk s => Next s | other => other end.
 (* a method that mutates self: every exit carries (result, self at that moment); falling through returns None *)
 Definition finishM {S V O} (self_of : S -> O) (lost : O) (o : outcome S (fres V * O)) : fres V * O :=
-  match o with Next s | Cont s | Brk s => (FNone, self_of s) | Ret r => r | RetNone => (FNone, lost) | Raised e => (FRaised e, lost) | NonInt => (FNonInt, lost) end.
+  match o with Next s | Cont s | Brk s => (FNone, self_of s) | Ret r => r | RetNone => (FNone, lost) | Raised e => (FRaised e, lost) | NonInt => (FNonInt, lost) | OutOfFuel => (FOutOfFuel, lost) end.
 (* x = f() / a, b = f(): a None result cannot be unpacked or used as a number *)
 Definition bindr {S R R'} (c : fres R') (k : R' -> outcome S R) : outcome S R :=
-  match c with FRet r => k r | FNone => Raised EType | FRaised e => Raised e | FNonInt => NonInt end.
+  match c with FRet r => k r | FNone => Raised EType | FRaised e => Raised e | FNonInt => NonInt | FOutOfFuel => OutOfFuel end.
 
 (* return f(): the callee's result is passed on unchanged, None included *)
 Definition retcall {S R} (c : fres R) : outcome S R :=
-  match c with FRet r => Ret r | FNone => RetNone | FRaised e => Raised e | FNonInt => NonInt end.
+  match c with FRet r => Ret r | FNone => RetNone | FRaised e => Raised e | FNonInt => NonInt | FOutOfFuel => OutOfFuel end.
 Fixpoint bits_eqb (a b : list bool) : bool :=
   match a, b with [], [] => true | x :: a', y :: b' => Bool.eqb x y && bits_eqb a' b' | _, _ => false end.
 
@@ -50,12 +51,19 @@ Definition enumerate {A} (l : list A) : list (Z * A) := combine (map Z.of_nat (s
 (* range(n): 0, 1, ..., n-1 (empty for n <= 0) *)
 Definition pyrange (n : Z) : list Z := map Z.of_nat (seq 0 (Z.to_nat n)).
 
+(* while cond: body — on fuel; break leaves the loop, continue goes to the next test *)
+Fixpoint while_loop {S R} (fuel : nat) (cond : S -> bool) (body : S -> outcome S R) (s : S) : outcome S R :=
+  match fuel with
+  | O => OutOfFuel
+  | Datatypes.S f => if cond s then match uncont (body s) with Next s' => while_loop f cond body s' | Brk s' => Next s' | other => other end else Next s
+  end.
+
 (* a call of a method that may mutate self, from a method that mutates self: the callee's final self becomes ours;
    an exception in the callee leaves with the callee's self.  callMv uses the returned value (None cannot be used) *)
 Definition callM {S V W O} (c : fres W * O) (k : option W -> O -> outcome S (fres V * O)) : outcome S (fres V * O) :=
-  match c with (FRet w, o) => k (Some w) o | (FNone, o) => k None o | (FRaised e, o) => Ret (FRaised e, o) | (FNonInt, o) => Ret (FNonInt, o) end.
+  match c with (FRet w, o) => k (Some w) o | (FNone, o) => k None o | (FRaised e, o) => Ret (FRaised e, o) | (FNonInt, o) => Ret (FNonInt, o) | (FOutOfFuel, o) => Ret (FOutOfFuel, o) end.
 Definition callMv {S V W O} (c : fres W * O) (k : W -> O -> outcome S (fres V * O)) : outcome S (fres V * O) :=
-  match c with (FRet w, o) => k w o | (FNone, o) => Ret (FRaised EType, o) | (FRaised e, o) => Ret (FRaised e, o) | (FNonInt, o) => Ret (FNonInt, o) end.
+  match c with (FRet w, o) => k w o | (FNone, o) => Ret (FRaised EType, o) | (FRaised e, o) => Ret (FRaised e, o) | (FNonInt, o) => Ret (FNonInt, o) | (FOutOfFuel, o) => Ret (FOutOfFuel, o) end.
 
 (* l[j] with Python's negative indices; None = IndexError *)
 Definition py_index (len : nat) (j : Z) : option nat :=
@@ -66,6 +74,23 @@ Definition list_get {A} (d : A) (l : list A) (j : Z) : A := match py_index (leng
 Fixpoint set_nth {A} (l : list A) (k : nat) (v : A) : list A :=
   match l, k with [], _ => [] | _ :: t, O => v :: t | a :: t, S k' => a :: set_nth t k' v end.
 Definition list_set {A} (l : list A) (j : Z) (v : A) : list A := match py_index (length l) j with Some k => set_nth l k v | None => l end.
+
+(* Python str as a list of characters: find of a one-character needle, slices with Python's negative-index rule,
+   iteration character by character, substring test *)
+Fixpoint str_find_from (k : Z) (s : list ascii) (c : ascii) : Z :=
+  match s with [] => -1 | a :: t => if Ascii.eqb a c then k else str_find_from (k + 1) t c end.
+Definition str_find (s : list ascii) (c : ascii) : Z := str_find_from 0 s c.
+Definition clamp {A} (l : list A) (k : Z) : nat :=
+  let j := if k <? 0 then Z.max 0 (k + Z.of_nat (length l)) else k in Nat.min (Z.to_nat j) (length l).
+Definition slice_from {A} (l : list A) (k : Z) : list A := skipn (clamp l k) l.
+Definition slice_to {A} (l : list A) (k : Z) : list A := firstn (clamp l k) l.
+Definition chars (s : list ascii) : list (list ascii) := map (fun c => [c]) s.
+Fixpoint str_eqb (a b : list ascii) : bool :=
+  match a, b with [], [] => true | x :: a', y :: b' => Ascii.eqb x y && str_eqb a' b' | _, _ => false end.
+Fixpoint prefix_b (a b : list ascii) : bool :=
+  match a, b with [], _ => true | x :: a', y :: b' => Ascii.eqb x y && prefix_b a' b' | _ :: _, [] => false end.
+Fixpoint substr_b (a b : list ascii) : bool :=
+  match b with [] => match a with [] => true | _ => false end | _ :: b' => prefix_b a b || substr_b a b' end.
 
 (* str values built by f-strings: literal pieces and integers *)
 Inductive tok := TS (s : String.string) | TZ (z : Z).
